@@ -113,7 +113,7 @@ add("b7_array_buffer_programs", "yaml::encoding",
 add("b8_utf8_encoder_from_start", "yaml::encoding", hfile="yaml_encoding_start.rs",
     desc="a fresh Utf8Encoder over three arbitrary characters, read into one large buffer (how reads split characters is B4's subject): the bytes are exactly the UTF-8 encoding of the characters with ONE leading U+FEFF dropped - a U+FEFF anywhere else is data; every read fills its buffer or drains the stream. Driven through the constructor only, so it survives a reorganisation of the encoder's private state (which B4 sets directly)",
     bounds="3 characters (all scalar values), one read of 16 bytes and one more", functions=["yaml::encoding::Utf8Encoder::{new,next_char}", "<Utf8Encoder as Read>::read", "yaml::encoding::ArrayBuffer"],
-    covers=["B8 U+FEFF after the byte order mark is data", "B8 three astral characters"], props=["C07", "C01", "C02"], timeout=2400, mem_gb=28)
+    covers=["B8 U+FEFF after the byte order mark is data", "B8 three astral characters"], props=["C07", "C01", "C02"], timeout=2400, mem_gb=28, tier="thorough", best_effort=True)
 add("b5_encoder_utf16", "yaml::encoding",
     desc="Encoder::new(UTF-16) end to end through the real type wiring: output = reference UTF-8 of the decoded scalars, one leading BOM stripped, ill-formed -> Err",
     bounds="0..4 source bytes (2 units), both byte orders, every source windowing, caller buffers 1..5, <= 8 reads", functions=B_FUN,
@@ -227,7 +227,7 @@ add("d2_attribution", "transcode::stream",
     desc="one fault on either side at any position: serializer fault => Error::Ser(genuine serializer error); deserializer fault => Error::De(genuine deserializer error); never the synthetic filler; no serializer call after the fault; a fault is never success",
     bounds="<= 6 events, nesting 1, serializer fault at any call position (usize), deserializer fault at any event / between entries / before a value",
     functions=D_FUN, covers=["D serializer fault inside a collection", "D deserializer fault inside a collection"],
-    flags=NOCHK, props=["C11"], timeout=1800, mem_gb=16, assumptions=D_ASM, replay="stream", thorough_props=["C12"])
+    flags=NOCHK, props=["C11"], timeout=1800, mem_gb=16, assumptions=D_ASM, replay="stream", thorough_props=["C12"], tier="thorough", best_effort=True)
 add("d2b_attribution_nest2_small", "transcode::stream",
     desc="D2 at nesting 2 with 3 events (collection > collection > failing entry): a collection child that reports a deserializer / serializer failure to its parent is attributed correctly - the inductive case the nesting-1 harness cannot produce",
     bounds="<= 3 events, nesting 2, one fault on either side at any position", functions=D_FUN,
